@@ -322,6 +322,12 @@ pub fn run(ctx: &Ctx) -> i32 {
         let wg = if t[3] == 1 { geom(TILTS[t[4]], az_b, Some([-7.0, -12.0, 12.0]), vec![point![14.0, 13.0], point![10.0, 13.0], point![10.0, 10.0], point![14.0, 10.0]]) } else { geom(TILTS[t[4]], az_b, Some([3.0, -2.0, 12.0]), rect(4.0, 3.0)) };
         m.walls.push(wall("W1", BoundaryType::EXTERIOR, uid("wc"), uid("S1"), None, wg));
         m.windows.push(window("V1", uid("winc"), uid("W1"), Some([1.0, 0.8]), 1.5, 1.2, 0.0));
+        if (t[1] + t[2] + t[4]) % 2 == 1 {
+            // a user value for the obstruction factor of the second window: the computed factor that is reported next to it
+            // is still the computed one
+            let id = m.windows.last().unwrap().id;
+            m.overrides.windows.insert(id, WinPropsOverrides { u_value: None, f_shobst: Some(if t[3] == 0 { 0.3 } else { 1.2 }), ..Default::default() });
+        }
         match t[6] {
             1 => m.windows.last_mut().unwrap().geometry.position = None,
             2 => m.walls.last_mut().unwrap().geometry.position = None,
@@ -373,7 +379,7 @@ pub fn run(ctx: &Ctx) -> i32 {
     ctx.sample(json!({"part": "scene", "zone": zones[t[0]], "azimuth": AZS[t[1]], "tilt": TILTS[t[2]], "setback_idx": t[3], "obstacle": OBST[t[4]], "fillers": FILLERS[t[5]], "positions": t[6]}));
     ctx.finish(
         "model_checking",
-        &format!("full product zones({}) x window-wall azimuth(8) x tilt{{90,45,0}} x setback{{0,0.2}} x obstacle{{none, facing wall at 1/5/20 m, overhang, big overhang, side fin, half cover, behind, below}} x far-away filler occluders{{0,29,30,31,60}} (crossing the BVH leaf size) x positions{{all, window without, wall without}} (every other scene lists the wall outline from its third corner, the window staying where it is); oracle: brute-force f64 ray/polygon casting from the code's own sample points over the statement's occluder set (reveals recomputed), bands: 1 mm from an outline, |n.d|<0.02, sun within 0.02 of the back-face threshold; F in [lo-0.005, hi+0.005], in [0,1], >= 0.97 when nothing can be hit, diffuse share when hidden at every hour, sample points on the window rectangle in the set-back plane; exact monotonicity when each alphabet obstacle (one as a wall) is added; two-window models over all ordered pairs of wall poses (azimuth(4) x tilt(3) x second azimuth{{same,+90}} x tilt(3) x list order x second window with / without position); shipped models with and without extra obstacles; non-trivial = some ray can be blocked", zones.len()),
+        &format!("full product zones({}) x window-wall azimuth(8) x tilt{{90,45,0}} x setback{{0,0.2}} x obstacle{{none, facing wall at 1/5/20 m, overhang, big overhang, side fin, half cover, behind, below}} x far-away filler occluders{{0,29,30,31,60}} (crossing the BVH leaf size) x positions{{all, window without, wall without}} (every other scene lists the wall outline from its third corner, the window staying where it is); oracle: brute-force f64 ray/polygon casting from the code's own sample points over the statement's occluder set (reveals recomputed), bands: 1 mm from an outline, |n.d|<0.02, sun within 0.02 of the back-face threshold; F in [lo-0.005, hi+0.005], in [0,1], >= 0.97 when nothing can be hit, diffuse share when hidden at every hour, sample points on the window rectangle in the set-back plane; exact monotonicity when each alphabet obstacle (one as a wall) is added; two-window models over all ordered pairs of wall poses (azimuth(4) x tilt(3) x second azimuth{{same,+90}} x tilt(3) x list order x second window with / without position, every other one with a user obstruction factor next to the computed one); shipped models with and without extra obstacles; non-trivial = some ray can be blocked", zones.len()),
         true,
         json!({"scenes": n}),
     )
